@@ -59,12 +59,23 @@ Definition jv_of_qitem (q : qitem) : jv :=
 Definition jopt_int (o : option Z) : jv := match o with Some z => JInt z | None => JNull end.
 Definition jv_of_stage (s : idx * list mval) : jv :=
   jobj [("index", name_of_idx (fst s)); ("matches", JArr (map jv_of_mval (snd s)))].
+(* hypothesis ids_desc of the C02/C11/C12-kv theorems, evaluated on the generated filters (reported in the evidence) *)
+Fixpoint desc_from (x : bytes) (r : list bytes) : bool :=
+  match r with [] => true | y :: r' => lex_ltb y x && desc_from y r' end.
+Definition ids_desc_b (p : plan) : bool :=
+  match p_index p with
+  | PSingle IxIds ms => match compile (map (to_key IxIds) ms) with
+                        | Some (x :: r) => desc_from x r
+                        | _ => true end
+  | _ => true
+  end.
 Definition jv_of_plan (p : plan) : jv :=
   jobj [("query", JArr (map jv_of_qitem (p_query p)));
         ("index", match p_index p with
                   | PSingle i ms => jv_of_stage (i, ms)
                   | PMulti st => jobj [("multi", JArr (map jv_of_stage st))] end);
-        ("limit", jopt_int (p_limit p)); ("since", jopt_int (p_since p)); ("until", jopt_int (p_until p))].
+        ("limit", jopt_int (p_limit p)); ("since", jopt_int (p_since p)); ("until", jopt_int (p_until p));
+        ("ids_desc", JBool (ids_desc_b p))].
 Definition filters_of (v : jv) : list filter := map filter_of_jv (as_arr (jfield "filters" v)).
 Definition run_plan (v : jv) : jv :=
   JArr (map jv_of_plan (planner (as_opt_int (jfield "default_limit" v)) (as_opt_int (jfield "max_limit" v)) (filters_of v))).
